@@ -17,15 +17,49 @@ RULE = ("op sequences (value, error, call, is_computed, set_value, set_error, re
         "whose behaviour script (returns / raises / unsubscribes itself, the next, the previous or any other subscriber "
         "/ subscribes a new one / a sequence of these) acts on fut.on_computed from inside the callback, 1..3 completions "
         "(by a read, set_value, set_error, an inner set on the suspended task, a failing dependency, the body) separated "
-        "by reset_unsafe()")
+        "by reset_unsafe(); plus the EXCEPTION-CLASS dimension: every raising subscriber raises an Exception of one of 17 "
+        "classes (harness class, AssertionError from a failing assert, a subclass of it, ValueError, KeyError, IndexError, "
+        "TypeError, AttributeError, ZeroDivisionError, OSError, RuntimeError, NotImplementedError, StopIteration, "
+        "FutureIsAlreadyComputed, BatchingError, BatchCancelledError, user-defined Exception subclass) - drawn for every "
+        "raising subscriber of all families, and swept: every class x every completion path (Future/AsyncTask: value, "
+        "error, call, set_value, set_error; FutureBase: set_value, set_error; scheduled task: inner set_value/set_error "
+        "while suspended, failing dependency, body return/raise, top-level set; batch: subscriber on an item set by the "
+        "flush body, on an item left to BatchBase._computed's loop, on the batch); plus the BATCH family (KBatch): a "
+        "BatchBase with 1..4 BatchItemBase items as futures, scripted subscribers on each, a flush body that sets / "
+        "forgets / sets twice each item and returns or raises, ops on the batch (reads, set_value, set_error, flush, "
+        "cancel, subscribe) and reads on items")
 TRUSTED = ["qcore.events.EventHook subscribe/unsubscribe/safe_trigger are modelled as list append / remove-first / a loop "
            "over a copy of the handler list (Futures.notify); qcore.errors.reraise is exercised, not modelled"]
-ASSUMPTIONS = ["callbacks raise only Exception subclasses (BaseException from a callback is outside the statement)",
+ASSUMPTIONS = ["callbacks raise only Exception subclasses - of any class (BaseException from a callback is outside the statement)",
+               "KBatch: items get their subscribers before the first operation, no reset_unsafe(), no set_value/set_error on "
+               "items from outside the flush body (C11's check drives batches in the scheduler)",
                "batches and batch items are driven by C11's check; here a batch item only carries a task's suspension",
                "a computing read of a suspended task from inside its own dependency's computation (re-entrant scheduler) "
                "and AsyncContext pause()/resume() failures are not explored"]
 
 KINDS = ["KLazy", "KLazy", "KLazy", "KTask", "KTask", "KPlain", "KConst", "KError"]
+
+# Exception classes a raising subscriber raises (model: Futures.xcls; runner: c10_impl._raise_cls)
+XCLASSES = ["XUser", "XAssertion", "XAssertionSub", "XValue", "XKey", "XIndex", "XType", "XAttribute", "XZeroDivision",
+            "XOSError", "XRuntime", "XNotImplemented", "XStopIteration", "XAlreadyComputed", "XBatching",
+            "XBatchCancelled", "XCustom"]
+
+
+def _R(cls="XUser"):
+    return {"CbRaise": [cls]}
+
+
+CB_RAISE = _R()
+
+
+def _xcls(rng):
+    """30% the harness's own class, 20% AssertionError / a subclass of it, 50% uniform over all classes."""
+    r = rng.random()
+    if r < 0.30:
+        return "XUser"
+    if r < 0.50:
+        return "XAssertion" if rng.random() < 0.7 else "XAssertionSub"
+    return rng.choice(XCLASSES)
 
 
 def _val(rng):
@@ -58,7 +92,7 @@ def gen_case(rng, malformed):
                 ops.append("OReset")
             elif r < 0.8:
                 nsub += 1
-                ops.append({"OSubscribe": [nsub, "CbRaise"]})
+                ops.append({"OSubscribe": [nsub, CB_RAISE]})
             else:
                 ops.append(rng.choice(["OValue", "OError", "OCall", "OIsComputed"]))
         else:
@@ -78,7 +112,7 @@ def gen_case(rng, malformed):
                 ops.append("OReset")
             else:
                 nsub += 1
-                ops.append({"OSubscribe": [nsub, "CbOk" if rng.random() < 0.6 else "CbRaise"]})
+                ops.append({"OSubscribe": [nsub, "CbOk" if rng.random() < 0.6 else CB_RAISE]})
     return {"args": [kind, prov, o0, ops], "meta": {"malformed": malformed}}
 
 
@@ -90,7 +124,7 @@ def _beh(rng, me, fresh, depth=0):
     if r < 0.25:
         return "CbOk"
     if r < 0.35:
-        return "CbRaise"
+        return CB_RAISE
     if r < 0.75:
         q = rng.random()
         if q < 0.45:
@@ -104,7 +138,7 @@ def _beh(rng, me, fresh, depth=0):
         return {"CbUnsub": [t]}
     if r < 0.88 or depth >= 2:
         return {"CbSub": [fresh(), _beh(rng, me, fresh, depth + 1) if rng.random() < 0.3 and depth < 2 else
-                          ("CbOk" if rng.random() < 0.7 else "CbRaise")]}
+                          ("CbOk" if rng.random() < 0.7 else CB_RAISE)]}
     return {"CbSeq": [_beh(rng, me, fresh, depth + 1), _beh(rng, me, fresh, depth + 1)]}
 
 
@@ -182,7 +216,7 @@ def gen_susp(rng, malformed, reent=False):
         nsub[0] += 1
         if reent:
             return {prefix + "Subscribe": [nsub[0], _beh(rng, nsub[0], fresh)]}
-        return {prefix + "Subscribe": [nsub[0], "CbOk" if rng.random() < 0.7 else "CbRaise"]}
+        return {prefix + "Subscribe": [nsub[0], "CbOk" if rng.random() < 0.7 else CB_RAISE]}
 
     # top-level ops: subscribers first (usually), then a mix dominated by reads
     ops = []
@@ -241,6 +275,240 @@ def gen_susp(rng, malformed, reent=False):
     return {"args": ["KSusp", phases, fin, ops], "meta": {"malformed": malformed, "reentrant": reent}}
 
 
+def _map_beh(k, f):
+    """Behaviour script k with every raise's class replaced by f(class) (model: FuturesProofs.recls)."""
+    if isinstance(k, str):
+        return k
+    (name, a), = k.items()
+    if name == "CbRaise":
+        return {"CbRaise": [f(a[0])]}
+    if name == "CbSub":
+        return {"CbSub": [a[0], _map_beh(a[1], f)]}
+    if name == "CbSeq":
+        return {"CbSeq": [_map_beh(a[0], f), _map_beh(a[1], f)]}
+    return k
+
+
+def _map_ops(ops, prefix, f):
+    return [{prefix + "Subscribe": [o[prefix + "Subscribe"][0], _map_beh(o[prefix + "Subscribe"][1], f)]}
+            if isinstance(o, dict) and prefix + "Subscribe" in o else o for o in ops]
+
+
+def _map_case(c, f):
+    """The same case with the Exception class of every raising subscriber (top-level and inner) mapped by f
+    (model: TaskFutProofs.recls_case)."""
+    kind, a1, a2, ops = c["args"]
+    if kind == "KBatch":
+        a1 = [{"": [[{"": [sb[""][0], _map_beh(sb[""][1], f)]} for sb in sp[""][0]], sp[""][1]]} for sp in a1]
+        ops = [{"BOn": [o["BOn"][0], _map_ops([o["BOn"][1]], "O", f)[0]]} if isinstance(o, dict) and "BOn" in o else o for o in ops]
+        args = [kind, a1, a2, ops]
+        return {"args": args, "tree": args, "meta": dict(c.get("meta", {}))}
+    if kind == "KSusp":
+        a1 = [{"mkphase": [p["mkphase"][0], p["mkphase"][1], _map_ops(p["mkphase"][2], "I", f), p["mkphase"][3]]} for p in a1]
+    args = [kind, a1, a2, _map_ops(ops, "O", f)]
+    return {"args": args, "tree": args, "meta": dict(c.get("meta", {}))}
+
+
+def _xcls_plain(rng, kind, path, cls):
+    """Exception-class profile, plain futures: 1..3 subscribers, one of them (any position) raises `cls`, the others
+    return / raise another class / are one-shots; completion through `path`; then reads, a second set, sometimes
+    reset_unsafe() and a second completion."""
+    fresh = _fresh_counter()
+    nsubs = rng.choice([1, 2, 2, 3])
+    pos = rng.randrange(nsubs)
+    ops = []
+    for i in range(nsubs):
+        if i == pos:
+            k = _R(cls) if rng.random() < 0.8 else {"CbSeq": [{"CbSub": [fresh(), "CbOk"]}, _R(cls)]}
+        else:
+            r = rng.random()
+            k = "CbOk" if r < 0.55 else _R(_xcls(rng)) if r < 0.8 else {"CbUnsub": [i + 1]}
+        ops.append({"OSubscribe": [i + 1, k]})
+    ok = rng.random() < 0.7
+    prov = [{"PRet": [_val(rng)]} if ok else {"PRaise": [rng.randrange(1, 60)]}]
+    if rng.random() < 0.3:
+        prov.append({"PRet": [_val(rng)]} if rng.random() < 0.5 else {"PRaise": [rng.randrange(1, 60)]})
+
+    def completion(p):
+        if p == "OSetValue":
+            return {"OSetValue": [_val(rng)]}
+        if p == "OSetError":
+            return {"OSetError": [rng.randrange(200, 260)]}
+        return p
+    ops.append(completion(path))
+    for _ in range(rng.choice([1, 2, 2, 3])):
+        r = rng.random()
+        ops.append(rng.choice(["OValue", "OError", "OCall", "OIsComputed"]) if r < 0.8 else completion(rng.choice(["OSetValue", "OSetError"])))
+    if rng.random() < 0.3:
+        ops.append("OReset")
+        ops.append(completion(rng.choice(["OValue", "OError", "OCall"] if kind != "KPlain" else ["OSetValue", "OSetError"])))
+        ops.append(rng.choice(["OValue", "OError", "OCall"]))
+    return {"args": [kind, prov, {"Ok": ["VNone"]}, ops], "meta": {"malformed": False, "xcls": cls, "path": "%s:%s" % (kind, path)}}
+
+
+XCLS_PLAIN_PATHS = [(k, p) for k in ("KLazy", "KTask") for p in ("OValue", "OError", "OCall", "OSetValue", "OSetError")] + \
+                   [("KPlain", "OSetValue"), ("KPlain", "OSetError")]
+# scheduled task: completed by an inner set while suspended, by a failing dependency, by the body, by a top-level set
+XCLS_SUSP_PATHS = ["inner-set-value", "inner-set-error", "dependency-error", "body-return", "body-raise", "top-set-value",
+                   "top-set-error"]
+
+
+def _xcls_susp(rng, path, cls):
+    """Exception-class profile, scheduled task: the raising subscriber is registered at top level or while the
+    task is suspended; the completion comes through `path`."""
+    via = rng.choice(["ViaFuture", "ViaBatch"])
+    inner_sub = rng.random() < 0.5 and not path.startswith("top-set")
+    ops = []
+    nid = [0]
+
+    def sub(prefix, k):
+        nid[0] += 1
+        return {prefix + "Subscribe": [nid[0], k]}
+    if not inner_sub:
+        ops.append(sub("O", _R(cls)))
+    if rng.random() < 0.6:
+        ops.append(sub("O", "CbOk" if rng.random() < 0.6 else _R(_xcls(rng))))
+    inner = []
+    if inner_sub:
+        inner.append(sub("I", _R(cls)))
+    if rng.random() < 0.4:
+        inner.append(sub("I", "CbOk" if rng.random() < 0.6 else _R(_xcls(rng))))
+    if path == "inner-set-value":
+        inner.append({"ISetValue": [_val(rng)]})
+    elif path == "inner-set-error":
+        inner.append({"ISetError": [rng.randrange(400, 460)]})
+    if path.startswith("inner-set") and rng.random() < 0.5:
+        inner.append(rng.choice(["IValue", "IError", "ICall", {"ISetValue": ["VNone"]}]))
+    dep = {"Err": [rng.randrange(500, 540)]} if path == "dependency-error" else {"Ok": [_val(rng)]}
+    clean = _cleanup(rng) if path.startswith("inner-set") else "CleanOk"
+    phases = [{"mkphase": [via, clean, inner, dep]}]
+    if rng.random() < 0.25:
+        phases.append({"mkphase": [rng.choice(["ViaFuture", "ViaBatch"]), "CleanOk", [], {"Ok": [_val(rng)]}]})
+    fin = {"PRaise": [rng.randrange(1, 60)]} if path == "body-raise" else {"PRet": [_val(rng)]}
+    if path == "top-set-value":
+        ops.append({"OSetValue": [_val(rng)]})
+    elif path == "top-set-error":
+        ops.append({"OSetError": [rng.randrange(200, 260)]})
+    else:
+        ops.append(rng.choice(["OValue", "OError", "OCall"]))
+    for _ in range(rng.choice([1, 2, 3])):
+        r = rng.random()
+        ops.append(rng.choice(["OValue", "OError", "OCall", "OIsComputed"]) if r < 0.85 else {"OSetValue": [_val(rng)]})
+    return {"args": ["KSusp", phases, fin, ops], "meta": {"malformed": False, "xcls": cls, "path": "KSusp:" + path}}
+
+
+def _on(t, o):
+    return {"BOn": [{"n": t}, o]}
+
+
+def _outc(rng):
+    return {"Ok": [_val(rng)]} if rng.random() < 0.8 else {"Err": [rng.randrange(600, 640)]}
+
+
+def _batch_follow(rng, nitems, n):
+    ops = []
+    for _ in range(n):
+        r = rng.random()
+        if r < 0.70:
+            ops.append(_on(rng.randrange(0, nitems + 1), rng.choice(["OValue", "OError", "OCall", "OIsComputed"])))
+        elif r < 0.80:
+            ops.append(_on(0, {"OSetValue": [_val(rng)]} if rng.random() < 0.5 else {"OSetError": [rng.randrange(200, 260)]}))
+        elif r < 0.90:
+            ops.append("BFlush")
+        else:
+            ops.append("BCancel")
+    return ops
+
+
+def _batch_completing(rng, nitems):
+    r = rng.random()
+    if r < 0.30:
+        return _on(rng.randrange(1, nitems + 1), rng.choice(["OValue", "OError", "OCall"]))
+    if r < 0.50:
+        return _on(0, rng.choice(["OValue", "OError", "OCall"]))
+    if r < 0.70:
+        return "BFlush"
+    if r < 0.80:
+        return "BCancel"
+    return _on(0, {"OSetValue": [_val(rng)]} if rng.random() < 0.5 else {"OSetError": [rng.randrange(200, 260)]})
+
+
+def gen_batch(rng):
+    """KBatch: a batch with 1..4 items as futures; subscribers on every future; the flush body sets the items."""
+    fresh = _fresh_counter()
+    nitems = rng.choice([1, 2, 2, 3, 3, 4])
+    sid = [0]
+
+    def beh():
+        r = rng.random()
+        return "CbOk" if r < 0.45 else _R(_xcls(rng)) if r < 0.80 else {"CbUnsub": [sid[0]]} if r < 0.92 else {"CbSub": [fresh(), "CbOk"]}
+    items = []
+    for _ in range(nitems):
+        subs = []
+        for _ in range(rng.choice([0, 1, 1, 2])):
+            sid[0] += 1
+            subs.append({"": [sid[0], beh()]})
+        r = rng.random()
+        acts = [] if r < 0.22 else [_outc(rng)] if r < 0.87 else [_outc(rng), _outc(rng)]
+        items.append({"": [subs, acts]})
+    r = rng.random()
+    fin = {"PRet": [_val(rng)]} if r < 0.65 else {"PRaise": [rng.randrange(1, 60)]} if r < 0.92 else {"PBase": [rng.randrange(60, 90)]}
+    ops = []
+    for _ in range(rng.choice([0, 1, 1, 2])):
+        sid[0] += 1
+        ops.append(_on(0, {"OSubscribe": [sid[0], beh()]}))
+    if rng.random() < 0.2:
+        ops += _batch_follow(rng, nitems, 1)
+    ops.append(_batch_completing(rng, nitems))
+    ops += _batch_follow(rng, nitems, rng.choice([1, 2, 3, 4, 6]))
+    return {"args": ["KBatch", items, fin, ops], "meta": {"malformed": False}}
+
+
+XCLS_BATCH_PATHS = ["flush-item", "loop-item", "batch-subscriber"]
+
+
+def _xcls_batch(rng, path, cls):
+    """Exception-class profile, batch: the raising subscriber sits on an item the flush body sets (items after it are
+    set later by the same body), on an item the body forgets (completed by BatchBase._computed's loop, other forgotten
+    items after it), or on the batch itself."""
+    nitems = rng.choice([2, 3])
+    pos = rng.randrange(0, nitems - 1) if path != "batch-subscriber" else -1
+    items = []
+    for i in range(nitems):
+        subs = [{"": [i + 1, _R(cls) if i == pos else ("CbOk" if rng.random() < 0.7 else _R(_xcls(rng)))]}]
+        if rng.random() < 0.3:
+            subs.append({"": [10 + i, "CbOk"]})
+        if path == "loop-item":
+            acts = [] if i >= pos or rng.random() < 0.3 else [_outc(rng)]
+        elif path == "flush-item":
+            acts = [_outc(rng)] if i <= pos or rng.random() < 0.8 else []
+        else:
+            acts = [_outc(rng)] if rng.random() < 0.7 else []
+        items.append({"": [subs, acts]})
+    fin = {"PRet": [_val(rng)]} if rng.random() < 0.8 else {"PRaise": [rng.randrange(1, 60)]}
+    ops = [_on(0, {"OSubscribe": [20, _R(cls) if path == "batch-subscriber" else "CbOk"]})]
+    if rng.random() < 0.5:
+        ops.append(_on(0, {"OSubscribe": [21, "CbOk"]}))
+    ops.append(_batch_completing(rng, nitems))
+    ops += [_on(t, rng.choice(["OValue", "OError"])) for t in range(nitems, -1, -1)]
+    return {"args": ["KBatch", items, fin, ops], "meta": {"malformed": False, "xcls": cls, "path": "KBatch:" + path}}
+
+
+def gen_xcls(rng, tier):
+    """Exception-class profile: EVERY class of XCLASSES x EVERY completion path (a sweep, not a sample), the rest of
+    the case drawn at random; the thorough tier repeats the sweep with other decorations."""
+    cs = []
+    for _ in range(1 if tier == "quick" else 12):
+        for cls in XCLASSES:
+            for kind, path in XCLS_PLAIN_PATHS:
+                cs.append(_xcls_plain(rng, kind, path, cls))
+            for path in XCLS_SUSP_PATHS:
+                cs.append(_xcls_susp(rng, path, cls))
+            for path in XCLS_BATCH_PATHS:
+                cs.append(_xcls_batch(rng, path, cls))
+    return cs
+
+
 def gen_cases(rng, tier):
     n = 400 if tier == "quick" else 6000
     cs = [gen_case(rng, rng.random() < 0.25) for _ in range(n)]
@@ -249,6 +517,11 @@ def gen_cases(rng, tier):
     # re-entrant subscriber profile (drawn after the older families, whose PRNG stream is unchanged)
     cs += [gen_reent(rng) for _ in range(250 if tier == "quick" else 6000)]
     cs += [gen_susp(rng, rng.random() < 0.2, reent=True) for _ in range(200 if tier == "quick" else 5000)]
+    # Exception-class dimension (drawn after all older families: their shapes are unchanged): every raising
+    # subscriber of the cases above gets a class of its own, then the class x completion-path sweep
+    cs = [_map_case(c, lambda _old: _xcls(rng)) for c in cs]
+    cs += gen_xcls(rng, tier)
+    cs += [gen_batch(rng) for _ in range(150 if tier == "quick" else 4000)]
     for c in cs:
         c["tree"] = c["args"]
     return cs
@@ -261,7 +534,7 @@ def _mk(kind, prov, o0, ops):
 
 CORPUS = [
     _mk("KLazy", [{"PRaise": [7]}], {"Ok": ["VNone"]}, ["OError", "OError", "OValue"]),
-    _mk("KLazy", [{"PRaise": [7]}], {"Ok": ["VNone"]}, [{"OSubscribe": [1, "CbRaise"]}, {"OSubscribe": [2, "CbOk"]}, "OValue", "OError"]),
+    _mk("KLazy", [{"PRaise": [7]}], {"Ok": ["VNone"]}, [{"OSubscribe": [1, _R()]}, {"OSubscribe": [2, "CbOk"]}, "OValue", "OError"]),
     _mk("KLazy", [{"PBase": [61]}, {"PRet": [{"VInt": [4]}]}], {"Ok": ["VNone"]}, ["OValue", "OIsComputed", "OValue", "OValue"]),
     _mk("KTask", [{"PRaise": [9]}], {"Ok": ["VNone"]}, [{"OSubscribe": [1, "CbOk"]}, "OError", "OValue", "OReset", "OValue"]),
     _mk("KTask", [{"PRet": [{"VInt": [3]}]}], {"Ok": ["VNone"]}, [{"OSetValue": [{"VInt": [5]}]}, "OValue", {"OSetError": [201]}, "OReset", "OValue"]),
@@ -275,16 +548,16 @@ CORPUS = [
     _mk("KSusp", [{"mkphase": ["ViaBatch", {"CleanRaise": [301]}, [{"ISetError": [401]}, {"ISetValue": ["VNone"]}, "IError"], {"Ok": ["VNone"]}]}],
         {"PRet": [{"VInt": [1]}]}, [{"OSubscribe": [1, "CbOk"]}, "OValue", "OError", {"OSetValue": ["VNone"]}]),
     # completed with a value by its dependency's provider; the generator ignores GeneratorExit; a subscriber added while suspended
-    _mk("KSusp", [{"mkphase": ["ViaFuture", "CleanYield", [{"ISubscribe": [2, "CbRaise"]}, {"ISetValue": [{"VInt": [5]}]}, {"ISubscribe": [3, "CbOk"]}, "ICall"], {"Err": [501]}]}],
+    _mk("KSusp", [{"mkphase": ["ViaFuture", "CleanYield", [{"ISubscribe": [2, _R("XRuntime")]}, {"ISetValue": [{"VInt": [5]}]}, {"ISubscribe": [3, "CbOk"]}, "ICall"], {"Err": [501]}]}],
         {"PRaise": [9]}, [{"OSubscribe": [1, "CbOk"]}, "OCall", "OIsComputed", "OReset", "OValue"]),
     # two suspensions, nothing completes the task from outside: the failing second dependency does
     _mk("KSusp", [{"mkphase": ["ViaFuture", {"CleanRaiseBase": [341]}, ["IIsComputed", "IValue"], {"Ok": [{"VInt": [2]}]}]},
                   {"mkphase": ["ViaBatch", "CleanOk", [{"ISubscribe": [2, "CbOk"]}], {"Err": [502]}]}],
-        {"PRet": ["VNone"]}, [{"OSubscribe": [1, "CbRaise"]}, "OError", "OValue", {"OSetError": [204]}]),
+        {"PRet": ["VNone"]}, [{"OSubscribe": [1, _R()]}, "OError", "OValue", {"OSetError": [204]}]),
     # re-entrant subscribers: a one-shot subscriber (unsubscribes itself in its callback) registered before two plain ones;
     # the second completion (after reset_unsafe) notifies the two that are still registered
     _mk("KLazy", [{"PRet": [{"VInt": [42]}]}, {"PRaise": [9]}], {"Ok": ["VNone"]},
-        [{"OSubscribe": [1, {"CbUnsub": [1]}]}, {"OSubscribe": [2, "CbOk"]}, {"OSubscribe": [3, "CbRaise"]}, "OValue", "OReset", "OError"]),
+        [{"OSubscribe": [1, {"CbUnsub": [1]}]}, {"OSubscribe": [2, "CbOk"]}, {"OSubscribe": [3, _R("XKey")]}, "OValue", "OReset", "OError"]),
     # set_error completion; 1 subscribes a new subscriber (not called now), 2 drops the already notified 1, 3 the absent 7
     _mk("KPlain", [], {"Ok": ["VNone"]},
         [{"OSubscribe": [1, {"CbSub": [101, "CbOk"]}]}, {"OSubscribe": [2, {"CbUnsub": [1]}]}, {"OSubscribe": [3, {"CbSeq": [{"CbUnsub": [7]}, {"CbUnsub": [3]}]}]},
@@ -293,10 +566,38 @@ CORPUS = [
     _mk("KSusp", [{"mkphase": ["ViaFuture", {"CleanRaise": [302]}, [{"ISubscribe": [2, {"CbUnsub": [3]}]}, {"ISubscribe": [3, "CbOk"]}, {"ISetError": [402]},
                                                                      {"ISubscribe": [4, "CbOk"]}], {"Ok": ["VNone"]}]}],
         {"PRet": [{"VInt": [1]}]}, [{"OSubscribe": [1, {"CbUnsub": [1]}]}, "OError", "OReset", "OValue"]),
+    # Exception class of a raising subscriber: a failing `assert` in the first of two subscribers of a lazy future; the
+    # FIRST accessor computes it (the swallowed AssertionError must not be taken for a provider failure)
+    _mk("KLazy", [{"PRet": [{"VInt": [3]}]}], {"Ok": ["VNone"]},
+        [{"OSubscribe": [1, _R("XAssertion")]}, {"OSubscribe": [2, "CbOk"]}, "OValue", "OError", "OCall"]),
+    # explicit completion; subscribers raising StopIteration and asynq's own FutureIsAlreadyComputed, then a plain one
+    _mk("KPlain", [], {"Ok": ["VNone"]},
+        [{"OSubscribe": [1, _R("XStopIteration")]}, {"OSubscribe": [2, _R("XAlreadyComputed")]}, {"OSubscribe": [3, "CbOk"]},
+         {"OSetValue": [{"VInt": [7]}]}, {"OSetValue": [{"VInt": [8]}]}, "OValue", "OError"]),
+    # scheduled task completed by its body after a batch-item suspension; an asserting subscriber added while
+    # suspended, a RuntimeError-raising one before; error() is the first accessor
+    _mk("KSusp", [{"mkphase": ["ViaBatch", "CleanOk", [{"ISubscribe": [2, _R("XAssertion")]}], {"Ok": [{"VInt": [1]}]}]}],
+        {"PRet": [{"VInt": [7]}]}, [{"OSubscribe": [1, _R("XRuntime")]}, {"OSubscribe": [3, "CbOk"]}, "OError", "OValue"]),
+    # a batch and its items as futures: item 1 (set by the flush body) has an asserting subscriber, item 2 is set after
+    # it by the same body, item 3 is forgotten by the body (completed by BatchBase._computed's loop) and has a
+    # KeyError-raising subscriber; the batch has a subscriber of its own; item 2's value() flushes
+    {"args": ["KBatch", [{"": [[{"": [1, _R("XAssertion")]}], [{"Ok": [{"VInt": [5]}]}]]}, {"": [[{"": [2, "CbOk"]}], [{"Ok": [{"VInt": [6]}]}]]},
+                         {"": [[{"": [3, _R("XKey")]}], []]}], {"PRet": ["VNone"]},
+              [_on(0, {"OSubscribe": [9, "CbOk"]}), _on(2, "OValue"), _on(1, "OValue"), _on(3, "OError"), _on(0, "OError"), "BFlush"]],
+     "meta": {"corpus": True}},
+    # both forgotten items have raising subscribers (AssertionError, StopIteration); the batch is cancelled
+    {"args": ["KBatch", [{"": [[{"": [1, _R("XAssertion")]}], []]}, {"": [[{"": [2, _R("XStopIteration")]}, {"": [3, "CbOk"]}], []]}],
+              {"PRet": ["VNone"]},
+              [_on(0, {"OSubscribe": [9, _R("XAssertionSub")]}), _on(0, {"OSubscribe": [10, "CbOk"]}), "BCancel", _on(2, "OError"),
+               _on(1, "OError"), _on(0, {"OSetValue": ["VNone"]})]], "meta": {"corpus": True}},
 ]
+for _c in CORPUS:
+    _c["tree"] = _c["args"]
 
 
 def model_input(c):
+    if c["args"][0] == "KBatch":
+        return "(CBatch " + " ".join(coqrun.coq_of(a) for a in c["args"][1:]) + ")"
     if c["args"][0] == "KSusp":
         return "(CTask " + " ".join(coqrun.coq_of(a) for a in c["args"][1:]) + ")"
     return "(CFut " + " ".join(coqrun.coq_of(a) for a in c["args"]) + ")"
@@ -312,6 +613,10 @@ def nontrivial(c):
     kind = c["args"][0]
     if kind == "KSusp":
         return bool(c["args"][1]) and any(o in ("OValue", "OError", "OCall") for o in ops)
+    if kind == "KBatch":
+        comp = [i for i, o in enumerate(ops) if o in ("BFlush", "BCancel") or _opname(o["BOn"][1]) in
+                ("OValue", "OError", "OCall", "OSetValue", "OSetError")]
+        return bool(c["args"][1]) and bool(comp) and comp[0] < len(ops) - 1
     completing = [i for i, o in enumerate(ops) if (o in ("OValue", "OError", "OCall") and kind in ("KLazy", "KTask"))
                   or (isinstance(o, dict) and next(iter(o)) in ("OSetValue", "OSetError"))]
     if kind in ("KConst", "KError"):
@@ -322,6 +627,11 @@ def nontrivial(c):
 def compare(c, m, io):
     if "Hang" in io:
         return "the implementation did not terminate on this case"
+    if c["args"][0] == "KBatch":
+        if m != {"OutBatch": [io["out"]]}:
+            return ("op results/results of the flush body's sets/callback log/flush count/subscriber lists/item outcomes differ "
+                    "between BatchFut.run_batch and the implementation")
+        return None
     if c["args"][0] == "KSusp":
         if m != {"OutTask": [io["out"]]}:
             return "top-level results/inner results/callback log/run count/final subscriber list differ between TaskFut.run_task and the implementation"
@@ -335,16 +645,24 @@ def distribution(cases):
     d = {"kinds": {}, "oplen": {}, "malformed": 0, "susp_phases": {}, "susp_cleanup": {}, "susp_via": {},
          "susp_with_inner_set": 0, "susp_inner_set_under_raising_cleanup": 0,
          "reentrant_profile": 0, "cases_with_reentrant_subscriber": 0, "subscriber_behaviours": {},
-         "unsubscribing_subscriber_followed_by_another": 0}
+         "unsubscribing_subscriber_followed_by_another": 0,
+         "raise_classes": {}, "cases_with_raising_subscriber_by_class": {}, "xcls_profile_paths": {}}
     for c in cases:
+        seen = set()
+        _map_case(c, lambda cls: (seen.add(cls), d["raise_classes"].__setitem__(cls, d["raise_classes"].get(cls, 0) + 1), cls)[2])
+        for cls in seen:
+            d["cases_with_raising_subscriber_by_class"][cls] = d["cases_with_raising_subscriber_by_class"].get(cls, 0) + 1
+        if c.get("meta", {}).get("path"):
+            pth = c["meta"]["path"]
+            d["xcls_profile_paths"][pth] = d["xcls_profile_paths"].get(pth, 0) + 1
         d["reentrant_profile"] += 1 if c.get("meta", {}).get("reentrant") else 0
         behs = _all_subscribes(c)
-        if any(not isinstance(k, str) for _, k in behs):
+        if any(not _is_plain(k) for _, k in behs):
             d["cases_with_reentrant_subscriber"] += 1
         for sid, k in behs:
             for b in _beh_classes(sid, k):
                 d["subscriber_behaviours"][b] = d["subscriber_behaviours"].get(b, 0) + 1
-        if any(not isinstance(k, str) and any(b.startswith("unsub") for b in _beh_classes(sid, k)) for sid, k in behs[:-1]):
+        if any(not _is_plain(k) and any(b.startswith("unsub") for b in _beh_classes(sid, k)) for sid, k in behs[:-1]):
             d["unsubscribing_subscriber_followed_by_another"] += 1
         if c["args"][0] == "KSusp":
             ph = c["args"][1]
@@ -360,6 +678,13 @@ def distribution(cases):
                 anybad = anybad or (hs and cn != "CleanOk")
             d["susp_with_inner_set"] += 1 if anyset else 0
             d["susp_inner_set_under_raising_cleanup"] += 1 if anybad else 0
+        if c["args"][0] == "KBatch":
+            d.setdefault("batch_items", {})
+            d.setdefault("batch_item_actions", {})
+            d["batch_items"][str(len(c["args"][1]))] = d["batch_items"].get(str(len(c["args"][1])), 0) + 1
+            for sp in c["args"][1]:
+                a = {0: "forgotten", 1: "set", 2: "set-twice"}[len(sp[""][1])]
+                d["batch_item_actions"][a] = d["batch_item_actions"].get(a, 0) + 1
         d["kinds"][c["args"][0]] = d["kinds"].get(c["args"][0], 0) + 1
         L = len(c["args"][3])
         b = "0" if L == 0 else "1-3" if L <= 3 else "4-12" if L <= 12 else "13-40"
@@ -375,6 +700,12 @@ def _opname(o):
 def _all_subscribes(c):
     """(id, behaviour) of every subscribe operation of the case, top-level and inner, in textual order."""
     out = []
+    if c["args"][0] == "KBatch":
+        for sp in c["args"][1]:
+            out += [sb[""] for sb in sp[""][0]]
+        out += [o["BOn"][1]["OSubscribe"] for o in c["args"][3] if isinstance(o, dict) and "BOn" in o and
+                isinstance(o["BOn"][1], dict) and "OSubscribe" in o["BOn"][1]]
+        return [(a[0], a[1]) for a in out]
     if c["args"][0] == "KSusp":
         for p in c["args"][1]:
             out += [o["ISubscribe"] for o in p["mkphase"][2] if isinstance(o, dict) and "ISubscribe" in o]
@@ -382,10 +713,17 @@ def _all_subscribes(c):
     return [(a[0], a[1]) for a in top + out]
 
 
+def _is_plain(k):
+    """returns, or raises an Exception: does not touch the subscription list"""
+    return isinstance(k, str) or "CbRaise" in k
+
+
 def _beh_classes(sid, k):
     if isinstance(k, str):
-        return ["plain" if k == "CbOk" else "raises"]
+        return ["plain"]
     (name, a), = k.items()
+    if name == "CbRaise":
+        return ["raises"]
     if name == "CbUnsub":
         t = a[0]
         return ["unsub-self" if t == sid else "unsub-next" if t == sid + 1 else "unsub-previous" if t == sid - 1 else "unsub-other"]
@@ -413,6 +751,15 @@ def _op_checks(label, name, arg, r, pre, post, runs, where):
         if post != pre:
             fs.append(dict(clause="single-assignment", site="%s:%s:outcome-changed" % (label, name),
                            msg="%s on a computed %s changed its outcome from %s to %s (%s)" % (name, label, pre, post, where)))
+    # (d') "... even if another subscriber raises an Exception": the completion contains a subscriber's Exception -
+    # no operation on the future reports to its caller the very exception object a subscriber raised
+    x = r["RRaise"][0] if isinstance(r, dict) and "RRaise" in r else None
+    if isinstance(x, dict) and "FromSubscriber" in x:
+        sid, cls = x["FromSubscriber"]
+        fs.append(dict(clause="notify-once-after", site="%s:%s:subscriber-exception-escaped:%s" % (label, name, cls["s"]),
+                       msg="%s on %s raised the %s that on_computed subscriber %d had raised while being notified - a "
+                           "subscriber's Exception must not escape the completion (%s; outcome before=%s, after=%s)" % (
+                               name, label, cls["s"], sid, where, pre, post)))
     # the outcome that was set is the one the future holds from then on
     if sem in ("OSetValue", "OSetError") and pre is None:
         want = {"Ok": arg} if sem == "OSetValue" else {"Err": arg}
@@ -594,12 +941,83 @@ def _susp_monitors(c, io):
     return fs
 
 
+def _batch_monitors(c, io):
+    """A batch and its items, each of them a future of the statement.  Observation points before / after every
+    operation - top-level ones and the set_value/set_error calls of the flush body - cut the history into segments:
+    one operation without nested ones, or a stretch of BatchBase's own code (_compute, _computed's item loop)."""
+    _, items, fin, ops = c["args"]
+    pts = io["points"]
+    log = io["out"][""][2]
+    events = io.get("events", [])
+    nf = len(items) + 1
+    fs = []
+
+    def fname(t):
+        return "batch" if t == 0 else "item"
+
+    def where(p):
+        if p["lvl"] == "top":
+            return "op %d on %s" % (p["i"], "the batch" if p["t"] == 0 else "item %d" % p["t"])
+        return "set number %d of the flush body on item %d" % (p["i"], p["t"])
+    # (a)-(c) per operation, on the future it addresses; (b') per-epoch outcome of every future
+    eps = [_Epoch("KBatch/%s" % fname(t)) for t in range(nf)]
+    stack = []
+    for p in pts:
+        if p["when"] == "pre":
+            stack.append(p)
+            continue
+        q = stack.pop()
+        t = p["t"]
+        if t >= nf or p["op"] in ("BFlush", "BCancel"):
+            continue
+        if p["lvl"] == "top":
+            o = ops[p["i"]]["BOn"][1]
+            label = "KBatch/%s" % fname(t)
+        else:
+            o = {p["op"]: list(items[t - 1][""][1][p["i"]].values())[0]}
+            label = "KBatch/%s/in-flush" % fname(t)
+        fs += _op_checks(label, p["op"], _arg(o), p["r"], q["st"][t], p["st"][t], p["runs"] - q["runs"] if t == 0 else 0, where(p))
+        fs += eps[t].op(p["op"], _arg(o), p["r"], q["st"][t], p["st"][t], io["prov"][q["nprov"]:p["nprov"]] if t == 0 else [],
+                        where(p), label=label)
+    # (d) per future and per segment: completed there <=> its subscribers (registered when the segment began) were each
+    # called once and saw the outcome; nobody else's subscribers of that future were called
+    top = None
+    for p, q in zip(pts, pts[1:]):
+        if p["lvl"] == "top" and p["when"] == "pre":
+            top = p
+        if p["lvl"] == "top" and p["when"] == "post":
+            continue
+        one_op = (p["when"], q["when"]) == ("pre", "post") and p["lvl"] == q["lvl"]
+        new = log[p["nlog"]:q["nlog"]]
+        for t in range(nf):
+            mine = [{"": r[""][1:]} for r in new if r[""][0] == t]
+            if one_op:
+                label = "KBatch/%s:%s%s" % (fname(t), p["op"], "" if p["lvl"] == "top" else ":in-flush")
+                if p["t"] != t:
+                    label += ":on-%s" % fname(p["t"])
+            else:
+                label = "KBatch/%s:%s:batch-code" % (fname(t), top["op"] if top else "?")
+            wh = "%s .. %s" % (where(p), where(q))
+            if p["st"][t] is None and q["st"][t] is not None:
+                fs += _notify_check(label, q["st"][t], p["subs"][t], mine, [e for e in events if e["fut"] == t],
+                                    p["nlog"], q["nlog"], wh + (", future %d" % t))
+            elif mine:
+                fs.append(dict(clause="notify-once-after", site=label + ":spurious-callback",
+                               msg="callbacks %s of future %d fired although it was not completed there (%s)" % (mine, t, wh)))
+            elif p["st"][t] is not None and q["st"][t] != p["st"][t]:
+                fs.append(dict(clause="stable-outcome", site=label + ":outcome-changed",
+                               msg="outcome of future %d changed from %s to %s (%s)" % (t, p["st"][t], q["st"][t], wh)))
+    return fs
+
+
 def monitors(c, io, build):
     """Direct encoding of the C10 statement over what the implementation did."""
     if "Hang" in io:
         return [dict(clause="compute-once", site="%s:hang" % c["args"][0], msg="the operations did not terminate")]
     if c["args"][0] == "KSusp":
         return _susp_monitors(c, io)
+    if c["args"][0] == "KBatch":
+        return _batch_monitors(c, io)
     kind, prov, o0, ops = c["args"]
     res, log, runs, _final = io["out"][""]
     events = io.get("events", [])
@@ -638,6 +1056,12 @@ def _simpler(k):
         return
     yield "CbOk"
     (name, a), = k.items()
+    if name == "CbRaise" and a[0] != "XUser":
+        yield _R("XUser")
+    if name == "CbSub":
+        for x in _simpler(a[1]):
+            if x != "CbOk":
+                yield {"CbSub": [a[0], x]}
     if name == "CbSeq":
         yield a[0]
         yield a[1]
@@ -657,7 +1081,45 @@ def _simpler_subscribes(ops, prefix):
                 yield ops[:i] + [{prefix + "Subscribe": [sid, k2]}] + ops[i + 1:]
 
 
+def _shrink_batch(c):
+    _, items, fin, ops = c["args"]
+    for i in range(len(ops)):
+        yield _case(["KBatch", items, fin, ops[:i] + ops[i + 1:]])
+    for i in range(len(items) - 1, -1, -1):
+        # drop item i+1: operations on it go away, later items are renumbered
+        ops2 = []
+        for o in ops:
+            if isinstance(o, dict) and "BOn" in o:
+                t = o["BOn"][0]["n"]
+                if t == i + 1:
+                    continue
+                if t > i + 1:
+                    o = {"BOn": [{"n": t - 1}, o["BOn"][1]]}
+            ops2.append(o)
+        yield _case(["KBatch", items[:i] + items[i + 1:], fin, ops2])
+    for i, sp in enumerate(items):
+        subs, acts = sp[""]
+        for j in range(len(subs)):
+            yield _case(["KBatch", items[:i] + [{"": [subs[:j] + subs[j + 1:], acts]}] + items[i + 1:], fin, ops])
+            for k2 in _simpler(subs[j][""][1]):
+                sb = {"": [subs[j][""][0], k2]}
+                yield _case(["KBatch", items[:i] + [{"": [subs[:j] + [sb] + subs[j + 1:], acts]}] + items[i + 1:], fin, ops])
+        if len(acts) == 2:
+            yield _case(["KBatch", items[:i] + [{"": [subs, acts[:1]]}] + items[i + 1:], fin, ops])
+    for i, o in enumerate(ops):
+        if isinstance(o, dict) and "BOn" in o and isinstance(o["BOn"][1], dict) and "OSubscribe" in o["BOn"][1]:
+            sid, k = o["BOn"][1]["OSubscribe"]
+            for k2 in _simpler(k):
+                yield _case(["KBatch", items, fin, ops[:i] + [{"BOn": [o["BOn"][0], {"OSubscribe": [sid, k2]}]}] + ops[i + 1:]])
+    if "PRet" not in fin:
+        yield _case(["KBatch", items, {"PRet": ["VNone"]}, ops])
+
+
 def shrink(c):
+    if c["args"][0] == "KBatch":
+        for x in _shrink_batch(c):
+            yield x
+        return
     kind, prov, o0, ops = c["args"]
     for i in range(len(ops)):
         yield _case([kind, prov, o0, ops[:i] + ops[i + 1:]])
